@@ -231,3 +231,156 @@ def replay(harness, name, sch, prog, v):
     r = H.normalise_native_ret(r, set(prog.newtypes))
     good = r.startswith("Some") if v["expect"] == "Some" else r == v["expect"]
     return (not good), "%s = %s after building the rule's premise and close()" % (v["query"], r)
+
+
+# ---------------------------------------------------------------------------------------------
+# C16 at the rule level: ages on canonical databases (any model size, injective matches)
+def ages_program(task):
+    """for every stage whose conclusion instance is not also produced by another stage of the same rule: on the canonical
+    database of the premise with a SYMBOLIC age (new xor old) per premise tuple and per element -- an element of an old tuple is
+    old (INV-age) -- the whole rule module pushes the conclusion instance exactly once if some premise tuple (incl. the type
+    atoms of the premise) is new, and never if all are old.  Decided by SAT; the canonical database makes the verdict independent
+    of the model size for matches with pairwise distinct variable values."""
+    import pipeline as P
+    import lemmas as L
+    from loader import dump
+    from pipeline import terms
+    P.limit_memory(16)
+    t0 = time.time()
+    res = {"program": task["program"], "stages": 0, "obligations": 0, "queries": 0, "violations": [], "skipped": [], "status": "ok", "max_atoms": 0}
+    try:
+        su = L.Setup(task["rs"], task["eql"], 2, repo=P.REPO)
+        sch = M.Schema(su.prog)
+        files = dump([task["rs"]])
+        mods = {m[0]: m for m in C16.rule_modules(files)}
+        enum_types = set(L.enum_types(su, sch))
+        for rname, paths in su.rules:
+            mod = mods.get(M.snake(rname))
+            if mod is None:
+                continue
+            modname, envdecl, subs, entry = mod
+            stages = stage_list(paths)
+            for k, (prem, concl, tys, eqs) in enumerate(stages):
+                if concl[0] not in ("rel", "def") or not prem:
+                    continue          # equalities are pushed in both orientations / empty premises are known finding F8
+                vs, val, tuples, per_type = canonical(prem, concl, tys, eqs)
+                if any(M.snake(tys[v]) in enum_types for v in vs):
+                    continue
+                rel = M.snake(concl[1])
+                want = tuple(val[v] for v in (concl[2] if concl[0] == "rel" else concl[2]))
+                if concl[0] == "rel" and want in tuples.get(rel, set()):
+                    continue          # tautological conclusion: no push is emitted
+                # ambiguity: another stage of the rule with the same conclusion relation whose premise could also match here
+                others = [s2 for j, s2 in enumerate(stages) if j != k and s2[1][0] == concl[0] and s2[1][1] == concl[1]]
+                if others:
+                    res["skipped"].append("%s#%d: another stage of the rule concludes the same relation" % (rname, k))
+                    continue
+                if modname.startswith("functionality"):
+                    continue
+                U = max([1] + list(per_type.values()))
+                ctx = V.set_ctx(V.Ctx(Circuit(), U=U))
+                c = ctx.c
+                # symbolic ages
+                type_atoms = set((M.snake(a[2]), val[a[1]]) for a in prem if a[0] == "type")
+                el_new = {(t, i): ctx.fresh_bool("new.%s[%d]" % (t, i)) for t in sch.types for i in range(per_type.get(t, 0))}
+                tup_new = {(r_, row): ctx.fresh_bool("new.%s%s" % (r_, list(row))) for r_, rows in tuples.items() if r_ not in sch.types for row in rows}
+                pre = []
+                for (r_, row), a in tup_new.items():
+                    R = sch.rels.get(r_)
+                    if R is None:
+                        raise Unsupported("relation %s" % r_)
+                    for t, x in zip(R.types, row):
+                        pre.append(c.implies(el_new[(t, x)], a))      # an element of an old tuple is old
+                f = {}
+                outs = {}
+                for fd in envdecl["fields"]["fields"]:
+                    name = fd["name"]
+                    if name == "phantom":
+                        f[name] = UNIT
+                        continue
+                    m = M.FIELD.match(name)
+                    if m and (ty_name(fd["ty"]) or "").startswith("PrefixTree"):
+                        r_ = m.group("rel")
+                        eqs_ = [int(x) for x in m.group("eqs").split("_")] if m.group("eqs") else None
+                        order = [int(x) for x in m.group("order").split("_") if x != ""]
+                        ix = M.Index(name, r_, m.group("age"), eqs_, order, None)
+                        cells = {}
+                        if r_ in sch.types:
+                            src = {(i,): el_new[(r_, i)] for i in range(per_type.get(r_, 0))}
+                        else:
+                            src = {row: tup_new[(r_, row)] for row in tuples.get(r_, set())}
+                        for row, a in src.items():
+                            pr = ix.project(row)
+                            if pr is not None:
+                                g = a if m.group("age") == "new" else -a
+                                cells[pr] = c.or2(cells.get(pr, F), g)
+                        f[name] = SetV(len(order), cells, U, frozen=True)
+                    elif name.startswith("new_"):
+                        f[name] = VecL()
+                        outs[name] = f[name]
+                    else:
+                        raise Unsupported("rule environment field %s not understood" % name)
+                I = Interp(su.prog, ctx, loop_bound=U + 1)
+                field = "new_%s%s" % (rel, "_def" if concl[0] == "def" else "")
+                if field not in outs:
+                    res["violations"].append({"rule": rname, "stage": k, "what": "no output vector %s" % field})
+                    continue
+                pushes = []          # (guard, assignment = values of the loop variables in scope, pushed tuple)
+
+                def on_push(recv, g, pv, scope, e):
+                    if recv is not outs[field]:
+                        return
+                    sigma = {}
+                    sc_ = scope
+                    while sc_ is not None:
+                        for kk, vv in sc_.vars.items():
+                            if isinstance(vv, int) and not isinstance(vv, bool) and kk not in sigma:
+                                sigma[kk] = vv
+                        sc_ = sc_.parent
+                    pushes.append((g, tuple(sorted(sigma.items())), tuple(I.deref(x) for x in pv)))
+                I.on_push = on_push
+                I.call_fn(entry, T, [StructV(envdecl["name"], f)])
+                I.on_push = None
+                mine = [(g, sg) for g, sg, tv in pushes if all(isinstance(x, int) for x in tv) and tv == want]
+                by_sigma = {}
+                for g, sg in mine:
+                    by_sigma.setdefault(sg, []).append(g)
+                all_new = {abs(a): (a > 0) for a in list(tup_new.values()) + list(el_new.values())}
+                all_old = {abs(a): not (a > 0) for a in list(tup_new.values()) + list(el_new.values())}
+                atoms_new = [a for a in tup_new.values()] + [el_new[(t, i)] for (t, i) in type_atoms]
+                some_new = c.orl(atoms_new)
+                goals = []
+                live_sigmas = [sg for sg, gs in by_sigma.items() if any(c.evaluate(gs, all_new))]
+                for sg, gs in sorted(by_sigma.items()):
+                    cnt = V.count_lits(gs, cap=2)
+                    goals.append(("%s#%d: assignment %s is enumerated at most once" % (rname, k, dict(sg)), -V.int_eq(cnt, 2)))
+                    goals.append(("%s#%d: assignment %s is not enumerated when every tuple is old" % (rname, k, dict(sg)), c.implies(-c.orl(list(tup_new.values()) + list(el_new.values())), V.int_eq(cnt, 0))))
+                if len(live_sigmas) == 1:
+                    cnt = V.count_lits(by_sigma[live_sigmas[0]], cap=2)
+                    goals.append(("%s#%d: the match with a new tuple is enumerated exactly once" % (rname, k), c.implies(some_new, V.int_eq(cnt, 1))))
+                    goals.append(("%s#%d: the all-old match is not enumerated" % (rname, k), c.implies(-some_new, V.int_eq(cnt, 0))))
+                elif len(live_sigmas) > 1:
+                    res["skipped"].append("%s#%d: %d assignments give the same conclusion tuple on the canonical database (only duplicate-freeness and the all-old case are checked)" % (rname, k, len(live_sigmas)))
+                else:
+                    goals.append(("%s#%d: the match is enumerated when all its tuples are new" % (rname, k), F))
+                cnt = 0
+                res["stages"] += 1
+                res["obligations"] += len(goals)
+                res["max_atoms"] = max(res["max_atoms"], len(atoms_new))
+                r, mdl = terms.solve(c, ctx.assumes + pre + [c.orl([-l for _, l in goals])], solver=task.get("solver", "kissat"), timeout_s=task.get("timeout", 120))
+                res["queries"] += 1
+                if r == "sat":
+                    vals = c.evaluate([l for _, l in goals], mdl)
+                    ages = {"%s%s" % (r_, list(row)): ("new" if c.evaluate([a], mdl)[0] else "old") for (r_, row), a in tup_new.items()}
+                    ages.update({"%s[%d]" % (t, i): ("new" if c.evaluate([el_new[(t, i)]], mdl)[0] else "old") for (t, i) in type_atoms})
+                    res["violations"].append({"rule": rname, "stage": k, "what": [lab for (lab, _), v in zip(goals, vals) if not v],
+                                              "ages": ages, "count": [kk for kk, g in V.cases_of(cnt).items() if c.evaluate([g], mdl)[0]] if not isinstance(cnt, int) else [cnt]})
+    except (Unsupported,) as ex:
+        res["status"] = "inconclusive"
+        res["reason"] = "Unsupported: %s" % ex
+    except Exception:
+        import traceback
+        res["status"] = "inconclusive"
+        res["reason"] = traceback.format_exc()[-1200:]
+    res["wall_s"] = round(time.time() - t0, 1)
+    return res
